@@ -3,6 +3,7 @@ package main
 import (
 	"bytes"
 	"fmt"
+	"github.com/basecomplextech/spec/internal/types"
 	"hash/fnv"
 
 	"github.com/basecomplextech/spec"
@@ -200,7 +201,12 @@ func readable(v spec.Value, depth int) error {
 			end := 0
 			_ = end
 			if len(fb) == 0 {
-				// FieldAt opens the value; an unreadable non-empty field must not be silently empty
+				// FieldAt opens the value. The parser validated the raw slot of EVERY table entry by index, so a
+				// non-empty slot of an accepted message must open (an entry hidden behind a duplicate or unsorted
+				// tag is still an entry)
+				if slot := types.VFieldAtRaw(m, i); len(slot) > 0 {
+					return fmt.Errorf("table entry %d (tag %d): slot of %d bytes in a parser-accepted message cannot be opened", i, tg, len(slot))
+				}
 				continue
 			}
 			if depth < 6 {
@@ -282,6 +288,46 @@ func (c *c13s) try(in []byte, origin string) {
 }
 
 // fingerprintLocal decodes prefix||value and normalises what legitimately depends on the view (nothing should).
+// shadowedEntries: small and big message tables over three slots (valid, INVALID, valid) with every assignment of
+// duplicate / unsorted / sorted tag triples to the slots: a lookup by tag hides one of the entries.
+func shadowedEntries() [][]byte {
+	var out [][]byte
+	bads := [][]byte{{0xee}, {0x05, 0x3c}, {0x46}} // unknown type; string whose size exceeds its data; list type without sizes
+	for _, bad := range bads {
+		data := append(append([]byte{1}, bad...), 7, 3)
+		ends := []int{1, 1 + len(bad), 3 + len(bad)}
+		for _, tags := range [][]int{{1, 1, 2}, {1, 2, 1}, {2, 1, 1}, {1, 1, 1}, {9, 1, 2}, {3, 2, 1}, {1, 2, 3}, {2, 2, 1}} {
+			for _, perm := range [][]int{{0, 1, 2}, {0, 2, 1}, {1, 0, 2}, {1, 2, 0}, {2, 0, 1}, {2, 1, 0}} {
+				for _, big := range []bool{false, true} {
+					var table []byte
+					for k := 0; k < 3; k++ {
+						tg, e := tags[k], ends[perm[k]]
+						if big {
+							table = append(table, byte(tg>>8), byte(tg), 0, 0, byte(e>>8), byte(e))
+						} else {
+							table = append(table, byte(tg), byte(e>>8), byte(e))
+						}
+					}
+					b := append(append([]byte{}, data...), table...)
+					b = append(b, byte(len(data)), byte(len(table)))
+					if big {
+						b = append(b, 81)
+					} else {
+						b = append(b, 80)
+					}
+					out = append(out, b)
+					// nested: the same message as the only field of an outer message
+					ob := append(append([]byte{}, b...), 1, byte(len(b)>>8), byte(len(b)), byte(len(b)), 3, 80)
+					if len(b) <= 0xfc {
+						out = append(out, ob)
+					}
+				}
+			}
+		}
+	}
+	return out
+}
+
 func fingerprintLocal(b []byte, vlen int) (uint64, string) {
 	return fingerprint(b)
 }
@@ -380,6 +426,11 @@ func c13(a *vlib.Args) {
 	for _, in := range tableCorruptions() {
 		if next() {
 			c.try(in, "table corruption")
+		}
+	}
+	for _, in := range shadowedEntries() {
+		if next() {
+			c.try(in, "duplicate / unsorted tag table with an invalid entry")
 		}
 	}
 	r.Distinct = c.accepted
